@@ -8,7 +8,7 @@ from ..engines import uijson
 class C15(Check):
     pid = "C15"
     level = "exploration"
-    budgets = {"quick": (180, 16), "thorough": (2800, 16)}
+    budgets = {"quick": (500, 16), "thorough": (11000, 16)}
     ops_key = "calls"
     exhaustive_note = (
         "switch table: form kind {float, choice} x optional {absent,T,F} x enabled {absent,T,F} x group "
@@ -41,11 +41,23 @@ class C15(Check):
         "plain forms (bool, integer, float, string, file) declare their type through the stored value, so a "
         "wrong type cannot be expressed through construction",
         "fresh objects of histories are rebuilt from the used object's current forms (copied before the call)",
+        "InputValidation.validate(name, value) on a parameter that carries a one_of rule is not judged "
+        "(InputFile.set_data_value strips that rule before calling it)",
+        "guards (lifted where allow_known is set, failures then carry a /known:<tag> suffix): pool-keeps-errors = "
+        "values breaking >=2 rules of one EnforcerPool are skipped; validate-data-pops-one-of = validate_data / data "
+        "setter calls are skipped when one_of rules are present; parameter-stores-first = the stored value is put "
+        "back after a refused assignment; dependency-enabled-keyerror = table rows with optional present, enabled "
+        "absent and a dependency get enabled=true written out (one row keeps the trigger); pgvalidator-uuid = "
+        "property-group identifiers are passed as entities outside construction; association-ignores-lists = "
+        "lists with an unknown identifier go through the data setter; stale-optional = None is not assigned to a "
+        "parameter whose enabled member was flipped by an earlier accepted call",
     ]
 
     def strategy(self, tier):
-        return st.one_of(uijson.pair_strategy(), uijson.pair_strategy(), uijson.history_strategy(),
-                         uijson.history_strategy(), uijson.history_strategy())
+        # (one_of would flatten the 13 per-kind pair strategies into the top-level choice: draw the layer first)
+        pairs = uijson.pair_strategy()
+        histories = uijson.history_strategy(8)
+        return st.integers(0, 9).flatmap(lambda i: pairs if i < 3 else histories)
 
     def enumerated(self, tier):
         return uijson.table_rows() + uijson.pair_grid()
